@@ -297,6 +297,11 @@ def make_world(case):
                 ers.append(er)
             ratio = PDFRatioProduct(ratio, er, cfg=cfg)
         W.sigsets.append(sgs)
+        if ds.get('const_product'):
+            sig2 = SigPDF('sig2')
+            sig2.values = [1.0 + 0.125 * ((3 * v) % 7) for v in range(len(ds['pairs']))]
+            sob2 = SigOverBkgPDFRatio(sig_pdf=sig2, bkg_pdf=BkgPDF('bkg2'), same_axes=False, cfg=cfg)
+            ratio = PDFRatioProduct(ratio, sob2, cfg=cfg)
         sp = ds.get('sobp')
         if sp is not None:
             sigp = SigPDFp(local_name(sp['pn']), sp['s0'], sp['cs'])
